@@ -5,6 +5,7 @@ tree under test ($VERIF_REPO, default /repo) is what gets imported.
 """
 import copy
 import multiprocessing as mp
+import os
 import signal
 import warnings
 
@@ -134,6 +135,168 @@ def default_ids(root):
                 ids.add(id(y))
                 stack.extend(y.values() if isinstance(y, dict) else y)
     return ids
+
+
+# ------------------------------------------------------------------ element projection
+INT_KWS = ("minItems", "maxItems", "minLength", "maxLength", "minProperties", "maxProperties")
+NUM_KWS = ("minimum", "maximum", "exclusiveMinimum", "exclusiveMaximum", "multipleOf")
+STR_KWS = ("format", "pattern", "description")
+CLASS_ATTRS = ("default", "const", "enum", "required", "description", "minProperties",
+               "maxProperties", "patternProperties", "additionalProperties", "propertyNames",
+               "dependencies")
+
+
+def project_element(e, depth=0):
+    """Real element tree -> the element record of spec/Elements.tla (as ToJson prints it):
+    {"cls", "kw", "elems", "name"}.  Reads attributes only (vars / getattr), never calls the
+    serializers under test."""
+    from statham.schema.elements import Element, Not, CompositionElement
+    from statham.schema.elements.meta import ObjectMeta
+    from statham.schema.constants import NotPassed
+    from statham.schema.property import _Property
+    import codec
+    if depth > 14:
+        raise ValueError("element tree too deep (cyclic?)")
+    if not isinstance(e, Element):
+        raise ValueError(f"not an element: {type(e).__name__}")
+    rec = {"cls": "", "kw": {}, "elems": [], "name": ""}
+    if isinstance(e, ObjectMeta):
+        rec["cls"], rec["name"] = "Object", e.__name__
+        attrs = {k: getattr(e, k, NotPassed()) for k in CLASS_ATTRS}
+        attrs["_properties"] = getattr(e, "properties", NotPassed())
+    else:
+        rec["cls"] = type(e).__name__
+        attrs = dict(vars(e))
+    kw = rec["kw"]
+    sub = lambda x: project_element(x, depth + 1)
+    for k, v in attrs.items():
+        if k.startswith("_") and k != "_properties":
+            continue
+        if k == "elements":
+            rec["elems"] = [sub(x) for x in v]
+            continue
+        if k == "element":
+            rec["elems"] = [sub(v)]
+            continue
+        if isinstance(v, NotPassed):
+            continue
+        if k in ("default", "const"):
+            kw[k] = codec.py_to_tagged(v)
+        elif k == "enum":
+            kw[k] = [codec.py_to_tagged(x) for x in v]
+        elif k in NUM_KWS:
+            if isinstance(v, bool) or not isinstance(v, (int, float)):
+                raise ValueError(f"{k} is not a number")
+            kw[k] = codec.py_to_tagged(v)
+        elif k in INT_KWS:
+            if isinstance(v, bool) or not isinstance(v, int):
+                raise ValueError(f"{k} is not an int")
+            kw[k] = v
+        elif k in STR_KWS:
+            if not isinstance(v, str):
+                raise ValueError(f"{k} is not a string")
+            codec.tla_str(v)
+            kw[k] = v
+        elif k == "uniqueItems":
+            if v is True:
+                kw[k] = True
+            elif v is not False:
+                raise ValueError("uniqueItems not a bool")
+        elif k == "items":
+            if isinstance(v, list):
+                kw["itemsT"] = [sub(x) for x in v]
+            else:
+                kw["items"] = sub(v)
+        elif k in ("additionalItems", "additionalProperties"):
+            if v is True:
+                pass
+            elif v is False:
+                kw[k + "B"] = False
+            else:
+                kw[k] = sub(v)
+        elif k in ("contains", "propertyNames"):
+            kw[k] = sub(v)
+        elif k == "patternProperties":
+            kw[k] = [[pk, sub(pv)] for pk, pv in v.items()]
+        elif k == "dependencies":
+            dl = [[dk, list(dv)] for dk, dv in v.items() if isinstance(dv, list)]
+            ds = [[dk, sub(dv)] for dk, dv in v.items() if not isinstance(dv, list)]
+            if dl:
+                kw["depsL"] = dl
+            if ds:
+                kw["depsS"] = ds
+            if not dl and not ds:
+                kw["depsL"] = []
+        elif k == "required":
+            kw[k] = list(v)
+        elif k == "_properties":
+            kw["properties"] = [
+                {"attr": pk, "source": pv.source if pv.source is not None else pk,
+                 "required": bool(pv.required), "elem": sub(pv.element)}
+                for pk, pv in v.items()]
+        else:
+            kw["?" + k] = repr(v)[:60]
+    return rec
+
+
+def norm_elem(rec):
+    """Hashable normal form of an element record (class names ignored; kw order ignored)."""
+    import codec
+
+    def val(k, v):
+        if k in ("default", "const") or k in NUM_KWS:
+            return codec.norm_tagged(v)
+        if k == "enum":
+            return tuple(codec.norm_tagged(x) for x in v)
+        if k in ("items", "additionalItems", "additionalProperties", "contains", "propertyNames"):
+            return norm_elem(v)
+        if k == "itemsT":
+            return tuple(norm_elem(x) for x in v)
+        if k in ("patternProperties", "depsS"):
+            return tuple(sorted((p[0], norm_elem(p[1])) for p in v))
+        if k == "depsL":
+            return tuple(sorted((p[0], tuple(p[1])) for p in v))
+        if k == "properties":
+            return tuple((p["attr"], p["source"], bool(p["required"]), norm_elem(p["elem"])) for p in v)
+        if isinstance(v, list):
+            return tuple(v)
+        return v
+    kw = rec["kw"] if isinstance(rec["kw"], dict) else {}
+    return (rec["cls"], tuple(sorted((k, val(k, v)) for k, v in kw.items())),
+            tuple(norm_elem(x) for x in rec["elems"]))
+
+
+# ------------------------------------------------------------------ the real CLI path, in memory
+_MEM = {}
+_MEM_COUNT = [0]
+_MEM_REGISTERED = [False]
+
+
+def _mem_loader(base_uri):
+    return _MEM.get(base_uri, ...)
+
+
+def materialized(docs, root="doc.json", pointer="/"):
+    """json_ref_dict.materialize of a set of documents served from memory (same call the CLI
+    makes: RefDict.from_uri + title_labeller).  docs: {file name: json}.  Returns (schema, uri, cleanup)."""
+    import copy as _copy
+    from json_ref_dict import loader as jl, materialize, RefDict
+    from json_ref_dict.ref_pointer import resolve_uri
+    from statham.titles import title_labeller
+    if not _MEM_REGISTERED[0]:
+        jl.get_document.register(_mem_loader)
+        _MEM_REGISTERED[0] = True
+    _MEM_COUNT[0] += 1
+    base = f"mem{os.getpid()}x{_MEM_COUNT[0]}/"
+    for name, doc in docs.items():
+        _MEM[base + name] = _copy.deepcopy(doc)
+    uri = base + root + "#" + pointer
+
+    def cleanup():
+        for name in docs:
+            _MEM.pop(base + name, None)
+        resolve_uri.cache_clear()
+    return uri, cleanup
 
 
 # ------------------------------------------------------------------ parallel map
